@@ -109,6 +109,8 @@ def gen_cb(d: D, prof: dict, depth: int) -> Optional[dict]:
         cb["partial"] = True
     elif r < 22 and not cb["async"]:
         cb["obj"] = True
+    elif r < 30 and not cb["async"]:
+        cb["falsy"] = True
     if depth == 0 and d.p(prof["p_embedded"]):
         cb["op"] = gen_op(d, prof, d.pick(prof["embedded_ops"]), depth + 1)
     return cb
@@ -163,6 +165,11 @@ def gen_spawn(d: D, prof: dict, depth: int, op: Optional[dict] = None) -> dict:
     op["pool"] = d.i(0, prof["max_pools"] - 1)
     kind = d.pick(prof["kinds"])
     op["kind"] = kind
+    if prof.get("burst"):
+        # many tasks at once: counts beyond 128 / 256 with workers that finish at once or after one tick
+        big = d.i(100, prof["max_num"])
+        op.update({"num": big, "n": big, "nc": d.pick([1, 4, 200]), "worker": {"script": d.pick([[], [], [["yield", 1]]]), "fname": "w"}})
+        return op
     if kind in ("apply", "start"):
         r = d.i(0, 9)
         num = d.i(0, prof["max_num"]) if r else 1
@@ -178,6 +185,8 @@ def gen_spawn(d: D, prof: dict, depth: int, op: Optional[dict] = None) -> dict:
         if d.p(0.2):
             op["pass_args"] = True
         r2 = d.i(0, 9)
+        if r2 == 2 and na:
+            op["args_as_str"] = True
         if r2 == 0:
             op["args_as_list"] = True
         elif r2 == 1:
@@ -187,7 +196,7 @@ def gen_spawn(d: D, prof: dict, depth: int, op: Optional[dict] = None) -> dict:
         if d.p(0.85):
             op["nc"] = d.i(1, prof["max_nc"])
         if d.p(0.35):
-            op["shapes"] = [d.i(0, 4) for _ in range(d.i(1, 3))]
+            op["shapes"] = [d.i(0, 6) for _ in range(d.i(1, 3))]
         if d.p(prof.get("p_iter_raise", 0.0)) and op["n"]:
             op["iter_raise_at"] = d.i(0, op["n"] - 1)
             op["fault_kind"] = d.i(0, 4)
@@ -277,6 +286,8 @@ def gen_pool(d: D, prof: dict) -> dict:
     spec: Dict[str, Any] = {"cls": cls, "size": d.pick(prof["sizes"])}
     if d.p(0.2):
         spec["name"] = "named%d" % d.i(0, 9)
+    elif d.p(0.08):
+        spec["name"] = d.pick(["100%", "a%%b", "%s", "%d-pool", "x y", "näme", "{0}", "p_Task-1"]) + str(d.i(0, 3))
     if cls == "SimpleTaskPool":
         spec["worker"] = gen_worker(d, prof, 1, prof["max_num"])
         spec["worker"].pop("call_op", None)
